@@ -16,6 +16,19 @@ pub fn is_periodic_shape(shape: u8) -> bool {
 
 pub const SCALES: &[f64] = &[1e-3, 1e-2, 0.1, 0.5, 1.0, 1.0, 1.0, 2.0, 10.0, 100.0, 1e3, 1e4, 1e5, 1e6];
 
+/// magnitude scale of a feed: the moderate range 1e-3..1e6, and in 1% of the picks a tiny one (1e-170, 1e-300,
+/// subnormal 1e-310): a tiny non-zero value is an ordinary finite input, and squares of it underflow to zero
+pub fn pick_scale(r: &mut Rng, allow_tiny: bool) -> f64 {
+    // (not for trees with Multiply, Divide, Drawdown or LnReturn: a product of tiny values underflows to an exact
+    // zero, a quotient by a subnormal overflows, and an average of tiny positive values may underflow to zero,
+    // which puts the domain conditions "positive input / non-zero divisor" out of reach of any analysis)
+    if allow_tiny && r.chance(0.01) {
+        *r.pick(&[1e-170, 1e-300, 1e-310])
+    } else {
+        *r.pick(SCALES) / 4.25
+    }
+}
+
 fn unit_shape(r: &mut Rng, shape: u8, len: usize) -> Vec<f64> {
     let mut v = Vec::with_capacity(len);
     match shape as usize % SHAPES.len() {
